@@ -1001,6 +1001,29 @@ func c05AllLeaves(r *Rng, thorough bool) []c05Leaf {
 			}
 		}
 	}
+	// the string methods of coq/Sem/StrLib.v on richer receivers (blanks, lines, numerals, non-ASCII)
+	sv := func(s string) c05Val { return c05Val{"\"" + pgEscapeStr(s) + "\"", "str", c05CoqStrV(s)} }
+	for ri, recv := range []string{" a,b,,c ", "k: v\nhead\n x \ny\n\nz", "a\u00e9,\u20acb", "-12", "9223372036854775808", "AbC"} {
+		rv := sv(recv)
+		for _, m := range []string{"trim", "toLower", "toUpper", "toInt"} {
+			ls = append(ls, c05LeafMethod(rv, m, nil, true))
+		}
+		if ri >= 3 && !thorough {
+			continue
+		}
+		for _, m := range []string{"contains", "indexOf", "split", "behind", "behindList"} {
+			for _, a := range []c05Val{sv(","), sv(""), sv("head"), sv("\u00e9"), c05Find("2"), c05Find("[]")} {
+				ls = append(ls, c05LeafMethod(rv, m, []c05Val{a}, true))
+			}
+		}
+		for _, t := range [][]c05Val{{c05Find("1"), c05Find("2")}, {c05Find("-1"), c05Find("0")}, {c05Find("64"), c05Find("1")}, {c05Find("0"), c05Find("9223372036854775807")},
+			{sv("1"), c05Find("2")}, {c05Find("1"), c05Find("true")}} {
+			ls = append(ls, c05LeafMethod(rv, "cut", t, true))
+		}
+		for _, t := range [][]c05Val{{sv(","), sv(";")}, {sv(""), sv("-")}, {sv("b"), sv("")}, {sv(","), c05Find("2")}, {c05Find("2"), sv(",")}} {
+			ls = append(ls, c05LeafMethod(rv, "replace", t, true))
+		}
+	}
 	return ls
 }
 
